@@ -109,11 +109,18 @@ func init() {
 			for _, h := range read("sha512") {
 				b.ChecksumsSha512 = append(b.ChecksumsSha512, control.SHA512FileHash{FileHash: h})
 			}
+			if b.Checksums() == nil {
+				return "nil" // "no secure checksums" is the nil slice
+			}
 			var xs []string
 			for _, h := range b.Checksums() {
 				xs = append(xs, fmt.Sprintf("%s:%s:%d:%s", core.Hex(h.Algorithm), core.Hex(h.Hash), h.Size, core.Hex(h.Filename)))
 			}
 			return "[" + strings.Join(xs, ",") + "]"
+		},
+		"acc-byhash": func(a []string) string {
+			fh := control.FileHash{Algorithm: "sha256", Hash: core.MustUnHex(a[2]), ByHash: core.MustUnHex(a[1])}
+			return core.Hex(fh.ByHashPath(core.MustUnHex(a[0])))
 		},
 		"acc-optdep": func(a []string) string {
 			field, text := core.MustUnHex(a[1]), core.MustUnHex(a[2])
@@ -225,6 +232,8 @@ func streamAccessors(g *core.G) {
 			}
 		}
 		g.Emit("acc-best", args...)
+		g.Emit("acc-byhash", core.Hex(r.Pick([]string{"dists/sid/main/binary-amd64/Packages.xz", "/srv/mirror/dists/sid/Release", "Packages", "", "a/b/", "/x", "./Sources.gz", "a//b/c"})),
+			core.Hex(r.Pick([]string{"SHA256", "SHA512", "MD5Sum", ""})), core.Hex(r.Str("0123456789abcdef", r.Pick2(64, 8))))
 		// on-demand relationship fields: well-formed, malformed, absent, empty
 		field := r.Pick([]string{"Depends", "Suggests", "Breaks", "Replaces", "Pre-Depends", "Conflicts", "Built-Using", "Build-Depends", "Build-Depends-Arch", "Build-Depends-Indep"})
 		text := renderDep(r, genDepAST(r), r.Intn(4))
